@@ -57,6 +57,12 @@ CLAIMED = {
  "C06": dict(technique="static analysis: enum-table agreement across three packages (names and values) and totality of the mapping tables, field-coverage of summary conversions and merges in both directions, unit-class rule for bin timestamps, order rule for the first-value test, enum coverage of aggregation switches, non-zero divisor of the time-bin modulo",
              text="Conversions and merges of partial aggregation results are compared field by field and enum by enum: a dropped field, a renumbered function or a unit mismatch changes results for every input, but no test compares the three enum tables or both conversion directions. Numeric correctness of the aggregates themselves is not decided.",
              note="Trusted: go/ssa, go/types; constant names compared after normalisation.", ref="§3 C06"),
+ "C02": dict(technique="static analysis: enum/type coverage of the evaluator against what the parser constructs, provenance of the single direction flag and the single LID window through the eval-tree builders, guarded histogram modulo, previous-value dominance rule in the posting-list merge",
+             text="Only the structural skeleton of search correctness is decided: every node type and operator is handled, all merge nodes agree on direction and on the LID window, the histogram arithmetic cannot divide by zero, the active merge cannot keep a repeated posting. The merge algorithms, border searches and limit/total arithmetic are value-level and not decided; this is the larger part of the property.",
+             note="Trusted: go/ssa; enum values are declared constants.", ref="§3 C02"),
+ "C13": dict(technique="static analysis: dominance rule that narrowing needs an ordered provider (with the constant Ordered() results), comparator-class pairing between sealing sort and narrowing, bound check before GetToken, type-switch coverage, path-sensitive rule that a failed ParseFloat never yields a numeric searcher, window and loop-shape necessities of the wildcard matcher",
+             text="Decides the structural conditions under which dictionary narrowing and the numeric/text decision are sound, plus two shape necessities of the wildcard matcher (fragment window, iterated KMP fallback). Glob and range semantics themselves need enumeration of strings and are not decided.",
+             note="Trusted: go/ssa; PATHSIM bounds; bytes.Compare and Go string order are the bytewise order.", ref="§3 C13"),
 }
 
 NOT_YET = "check not built yet in this round (planned in DESIGN.md §3); nothing is claimed for it"
